@@ -1,10 +1,22 @@
-import AcraModel.Basic.Bytes
+import AcraModel.KeystoreSec.Path
 /-! Driver ops for C07. -/
 namespace Driver.C07
-open AcraModel
+open AcraModel AcraModel.KeystoreSec
+
+def outHex : Out Bytes → String
+  | .ok b => "ok " ++ hexOf b
+  | .err => "err"
+  | .panic => "panic"
 
 def handle (op : String) (args : List String) : Option String :=
   match op, args with
+  | "clean", [p] => do let p ← ofHex p; pure (hexOf (Path.clean p))
+  | "join", [a, b] => do let a ← ofHex a; let b ← ofHex b; pure (hexOf (Path.join2 a b))
+  | "rel", [a, b] => do
+      let a ← ofHex a; let b ← ofHex b
+      pure (match Path.rel a b with | some r => "ok " ++ hexOf r | none => "err")
+  | "ospath", [root, p] => do let root ← ofHex root; let p ← ofHex p; pure (outHex (Path.osPath root p))
+  | "ospath.pinned", [root, p] => do let root ← ofHex root; let p ← ofHex p; pure (outHex (Path.osPathPinned root p))
   | _, _ => none
 
 end Driver.C07
